@@ -85,7 +85,7 @@ impl TableBuilder for MysqlQueryBuilder {
                     "ENUM('{}')",
                     variants
                         .iter()
-                        .map(|v| v.to_string())
+                        .map(|v| self.escape_string(&v.to_string()))
                         .collect::<Vec<_>>()
                         .join("', '")
                 ),
